@@ -764,7 +764,19 @@ func TestAssertLayer(t *testing.T) {
 		// expected: a perturbed copy
 		expected := map[string]fstest.FSEntryVerif{}
 		var lines []string
-		for n, e := range actual {
+		sortedNames := func(has func(string) bool) []string {
+			var out []string
+			for _, n := range append(append([]string(nil), names...), "zz") {
+				if has(n) {
+					out = append(out, n)
+				}
+			}
+			return out
+		}
+		inActual := func(n string) bool { _, ok := actual[n]; return ok }
+		// (fixed iteration order: every random choice must replay from the seed)
+		for _, n := range sortedNames(inActual) {
+			e := actual[n]
 			if next()%5 == 0 {
 				continue // expectation omits an entry that exists (an extra entry in the actual tree)
 			}
@@ -785,10 +797,12 @@ func TestAssertLayer(t *testing.T) {
 			expected["zz"] = fstest.FSEntryVerif{Size: 0, Mode: 0o644, IsDir: false} // expected but missing
 		}
 		mask := []gofs.FileMode{0, 0o777, gofs.ModeDir | 0o777, 0xFFFFFFFF, 0o700}[next()%5]
-		for n, e := range expected {
+		for _, n := range sortedNames(func(n string) bool { _, ok := expected[n]; return ok }) {
+			e := expected[n]
 			lines = append(lines, fmt.Sprintf("E %s %d %d %v", n, e.Size, uint32(e.Mode), e.IsDir))
 		}
-		for n, e := range actual {
+		for _, n := range sortedNames(inActual) {
+			e := actual[n]
 			mode := uint32(e.perm)
 			if e.isDir {
 				mode |= uint32(gofs.ModeDir)
